@@ -34,7 +34,7 @@ CHECKS = {
     ref='4/C05', note=SRV_NOTE),
  'C06': dict(
     technique='TLA+ SioServer.tla (acks config) + exhaustive graph validation',
-    text='C06_IssuedIdUnique, C06_AckOutcome (callback only for owner+id, exact args, every other ACK leaves ALL state unchanged and raises nothing), C06_IssuedMatchesCore, over ACK ids {0, issued, duplicate, never issued, other client, other namespace} and binary ACKs.',
+    text='C06_IssuedIdUnique, C06_AckOutcome (callback only for owner+id, exact args, every other ACK leaves ALL state unchanged and raises nothing), C06_IssuedMatchesCore, over ACK ids {0, issued, duplicate, never issued, other client, other namespace} and binary ACKs. call(): C06_CallOutcome - Server.call()/AsyncServer.call() is one re-entrant transition whose `during` argument is what arrives while it waits (ACKs from the right or the wrong client / namespace / id, with 0, 1, 2 arguments, duplicates, loss of the transport before or after, nothing): the result must be the shaped acknowledgement of THAT client under THAT id or TimeoutError (read off the schedule, not off the code), an abandoned call\'s id stays harmless, RuntimeError with async_handlers disabled; timeouts by virtual time on the asyncio server.',
     ref='4/C06', note=SRV_NOTE),
  'C08': dict(
     technique='TLA+ SioClient.tla (state config) model-checked by TLC + exhaustive transition-graph validation of Client and AsyncClient over a modelled engine.io client',
